@@ -74,6 +74,20 @@ def validate(pid, src, name):
     return ok
 
 
+def _merge_result(res_path, name, rec):
+    """Read-modify-write under an exclusive lock (several runs may be going on)."""
+    import fcntl
+
+    lock = res_path.with_suffix(".lock")
+    with open(lock, "w") as lf:
+        fcntl.flock(lf, fcntl.LOCK_EX)
+        cur = json.loads(res_path.read_text()) if res_path.exists() else {}
+        old = cur.get(name, {"property": rec["property"], "checks": {}})
+        old["checks"].update(rec["checks"])
+        cur[name] = old
+        res_path.write_text(json.dumps(cur, indent=1, sort_keys=True) + "\n")
+
+
 def run(names, tier, all_checks):
     root = VERIF / "seeded"
     res_path = root / "RESULTS.json"
@@ -87,7 +101,7 @@ def run(names, tier, all_checks):
         pid = meta["property"]
         tmp, repo = scratch(d / "patch.diff")
         try:
-            rec = results.get(name, {"property": pid, "checks": {}})
+            rec = {"property": pid, "checks": {}}
             for cid in (all_ids if all_checks else [pid]):
                 env = dict(os.environ, VERIF_REPO=str(repo), PYTHONPATH=str(VERIF), VERIF_EVIDENCE_DIR=str(tmp / "ev"), VERIF_REPLAY_DIR=str(tmp / "rp"))
                 t0 = time.time()
@@ -97,8 +111,7 @@ def run(names, tier, all_checks):
                 if p.returncode not in (0, 1):
                     rec["checks"][f"{cid}/{tier}"]["stderr"] = p.stderr[-500:]
                 print(name, cid, tier, rec["checks"][f"{cid}/{tier}"])
-            results[name] = rec
-            res_path.write_text(json.dumps(results, indent=1, sort_keys=True) + "\n")
+            _merge_result(res_path, name, rec)
         finally:
             shutil.rmtree(tmp, ignore_errors=True)
 
